@@ -137,6 +137,18 @@ int kalign_read_input(char* infile, struct msa** msa, int quiet)
                 DESTROY_TIMER(timer);
                 return OK;
         }
+        if(m->numseq == 0){
+                /* a recognised format without a single sequence record */
+                if(infile){
+                        WARNING_MSG("No sequences found in file: %s", infile);
+                }else{
+                        WARNING_MSG("No sequences found in standard input");
+                }
+                kalign_free_msa(m);
+                free_in_buffer(b);
+                DESTROY_TIMER(timer);
+                return OK;
+        }
         m->quiet = quiet;
 
         RUN(detect_alphabet(m));
